@@ -245,9 +245,13 @@ def run(tier, rep):
     # (c) threads
     import c09_threads
     tstats = c09_threads.run(tier, rep, seed)
-    states, trans, perr = vlib.merge_tlc([exh, sim] + tstats.pop('tlc'))
+    sres, sstats = [], {}
+    if not quick:
+        import suite_traces
+        sres, sstats = suite_traces.check('cache', rep)      # the repository's own tests, hooks on: the rule cache behaves as a set of keys
+    states, trans, perr = vlib.merge_tlc([exh, sim] + sres + tstats.pop('tlc'))
     opsc = collections.Counter(e['op']['op'] for _, h in hists for e in h)
-    cov = dict(states=max(states, 1), transitions=max(trans, 1), traces_validated_against_impl=len(hists) + tstats['schedules'],
+    cov = dict(**sstats, states=max(states, 1), transitions=max(trans, 1), traces_validated_against_impl=len(hists) + tstats['schedules'],
                histories=len(hists), calls_compared_bitwise=ncalls, distinct_call_signatures=len(sigs), distinct_nested_signatures=len(nsigs), ops=dict(opsc),
                samples=[[e['op'] for e in hists[0][1]]], evaluations=ncalls + tstats['thread_calls'],
                distinct_nontrivial=len({json.dumps([e['op'] for e in h], sort_keys=True) for _, h in hists if sum(1 for e in h if e['op']['op'] == 'call') >= 2}),
